@@ -17,7 +17,7 @@ def exc_key(e):
 
 
 class Case:
-    __slots__ = ("index", "seed", "ad", "obj", "snap", "history", "kind", "tier", "extra")
+    __slots__ = ("index", "seed", "ad", "obj", "snap", "history", "kind", "tier", "extra", "gate", "noise")
 
     def describe(self):
         return {"case_seed": self.seed, "kind": self.kind, "index": self.index, "tier": self.tier}
@@ -27,7 +27,7 @@ def case_rng(seed, index):
     return random.Random(seed * 1000003 + index)
 
 
-def project_case(seed, index, tier, **kw):
+def project_case(seed, index, tier, noise=True, **kw):
     """One generated project: AD, real object, snapshot.  Deterministic in (seed, index)."""
     rng = case_rng(seed, index)
     g = gen.Gen(rng, tier)
@@ -37,6 +37,13 @@ def project_case(seed, index, tier, **kw):
     c.history = []
     c.obj = build.build_project(c.ad, rng, c.history)
     c.snap = snapshot.snap_project(c.obj)
+    # the build is gated against the description BEFORE any further API use
+    c.gate = build.gate_diff(build.expected_project(c.ad), c.snap)
+    c.noise = 0
+    if noise and not c.gate and rng.random() < 0.5:
+        modern = tuple(c.ad["sunvox_version"]) >= (1, 9, 5, 0)
+        c.noise = build.api_noise(c.obj, rng, c.history, 0xFFFF if modern else 0xFF)
+        c.snap = snapshot.snap_project(c.obj)
     return c
 
 
